@@ -29,7 +29,7 @@ type World struct {
 	ModSet map[*ssa.Function]map[string]bool
 	srcCache map[string][]byte
 	// package-level variables stored only by package initialisers
-	WritesExisting map[*ssa.Function]map[string]bool
+	WE map[*ssa.Function]map[string]*wclass
 	InitOnly map[*ssa.Global]bool
 	// init-only globals of interface type initialised with a freshly constructed non-nil value
 	NonNilGlobal map[*ssa.Global]bool
@@ -376,6 +376,9 @@ func extName(f *ssa.Function) string {
 
 func (w *World) externalWrites(f *ssa.Function) map[string]bool {
 	n := f.String()
+	if n == "io.ReadFull" || n == "io.ReadAtLeast" {
+		return map[string]bool{"T:uint8": true, "$consumed": true}
+	}
 	if byteWritingExternals[n] {
 		return map[string]bool{"T:uint8": true}
 	}
@@ -663,7 +666,7 @@ func (w *World) keySort(e *Enc, k string) (string, bool) {
 			return "Real", true
 		}
 		return "Int", true
-	case k == "$big", k == "$lock", k == "$consumed", k == "$sb":
+	case k == "$big", k == "$lock", k == "$consumed", k == "$sb", k == "$limit":
 		return "Int", true
 	}
 	return "", false
